@@ -54,13 +54,15 @@ func (c Case) wire() map[string]any {
 
 func milli(x float64) int { return int(math.Round(x * 1000)) }
 
-var shapeFlavours = []string{"generic", "straddle", "negative", "tie", "long", "straddle", "generic", "union"}
+var shapeFlavours = []string{"generic", "straddle", "thin", "negative", "tie", "long", "straddle", "tiny", "generic", "union", "thin"}
 
 // randomShapeCase: a union of 1-3 spheres / boxes / capsules. Flavours place
 // it generically, across one or several of the canvas' 100-sample block
 // boundaries (in every axis), at negative coordinates, exactly on lattice
 // points with radii of whole cells (values equal to the threshold at
-// corners), or as a long capsule through several blocks.
+// corners), as a long capsule through several blocks, as a thin capsule on a
+// fine canvas (about one cell thick: lattice points with surface on opposite
+// sides), or so small that no lattice point is below the threshold.
 func randomShapeCase(rng *rand.Rand, id, maxCells int) Case {
 	flavour := shapeFlavours[(id+rng.Intn(2))%len(shapeFlavours)]
 	c := Case{Kind: "shape", Id: id, Attr: "Position"}
@@ -101,6 +103,22 @@ func randomShapeCase(rng *rand.Rand, id, maxCells int) Case {
 			first.Q = []int{milli(float64(k) / cpu), milli(float64(k+2) / cpu), milli(float64(k) / cpu)}
 			first.R = 0
 		}
+	case flavour == "thin":
+		first.T = "line"
+		c.Cpu = []int{16, 20, 25, 32}[rng.Intn(4)]
+		cpu = float64(c.Cpu)
+		first.S = 1000
+		first.R = milli((0.55 + rng.Float64()*0.7) / cpu)
+		l := (10 + rng.Float64()*float64(4*maxCells)) / cpu
+		dir := []float64{rng.Float64() - 0.5, rng.Float64() - 0.5, rng.Float64() - 0.5}
+		n := math.Sqrt(dir[0]*dir[0] + dir[1]*dir[1] + dir[2]*dir[2])
+		first.Q = []int{first.P[0] + milli(l*dir[0]/n), first.P[1] + milli(l*dir[1]/n), first.P[2] + milli(l*dir[2]/n)}
+	case flavour == "tiny":
+		first.T = "sphere"
+		first.R = milli(0.2 / cpu)
+		if first.R < 1 {
+			first.R = 1
+		}
 	case flavour == "long":
 		first.T = "line"
 		c.Cpu = []int{8, 10, 12, 16}[rng.Intn(4)]
@@ -132,7 +150,7 @@ func randomShapeCase(rng *rand.Rand, id, maxCells int) Case {
 	extra := 0
 	if flavour == "union" {
 		extra = 1 + rng.Intn(2)
-	} else if flavour != "long" && flavour != "tie" && rng.Intn(3) == 0 {
+	} else if flavour != "long" && flavour != "tie" && flavour != "thin" && flavour != "tiny" && rng.Intn(3) == 0 {
 		extra = 1
 	}
 	for k := 0; k < extra; k++ {
@@ -163,7 +181,7 @@ func randomShapeCase(rng *rand.Rand, id, maxCells int) Case {
 		thin = math.Min(thin, half*float64(s.S)/1000)
 	}
 	c.Cut = 0
-	if rng.Intn(5) < 2 {
+	if rng.Intn(5) < 2 && flavour != "thin" && flavour != "tiny" {
 		c.Cut = -int(thin * (0.1 + 0.4*rng.Float64()))
 		if flavour == "tie" { // keep the threshold on a whole number of cells below zero
 			c.Cut = -milli(1/cpu) * c.Shapes[0].S / 1000
